@@ -371,11 +371,24 @@ class Exec:
         if isinstance(o, VStr) and isinstance(e.slice, ast.Constant) and e.slice.value == 0:
             self.pending_raise.append((z3.Length(o.t) == 0, VExc(IndexError)))
             return VStr(z3.SubString(o.t, 0, 1))
+        if isinstance(o, VStr) and not isinstance(e.slice, ast.Slice):
+            idx = lift(self.ev(e.slice, st))
+            if not isinstance(idx, VInt): raise Unsupported('string index')
+            n = z3.Length(o.t); pos = z3.simplify(z3.If(idx.t < 0, n + idx.t, idx.t))
+            self.pending_raise.append((z3.Or(pos < 0, pos >= n), VExc(IndexError)))
+            return VStr(z3.SubString(o.t, pos, 1))
         if isinstance(o, VStr) and isinstance(e.slice, ast.Slice):
-            lo = self.ev(e.slice.lower, st).t if e.slice.lower else z3.IntVal(0)
-            if e.slice.upper is None: return VStr(z3.SubString(o.t, lo, z3.Length(o.t) - lo))
-            hi = self.ev(e.slice.upper, st).t
-            return VStr(z3.SubString(o.t, lo, hi - lo))
+            if e.slice.step is not None: raise Unsupported('string slice with a step')
+            n = z3.Length(o.t)
+            def bound(x, dflt):
+                # Python clamps slice bounds to [0, len]; negative bounds count from the end
+                if x is None: return dflt
+                v = lift(self.ev(x, st)).t
+                if z3.is_int_value(z3.simplify(v)) and z3.simplify(v).as_long() >= 0: return z3.If(v > n, n, v)
+                w = z3.If(v < 0, n + v, v)
+                return z3.If(w < 0, z3.IntVal(0), z3.If(w > n, n, w))
+            lo = bound(e.slice.lower, z3.IntVal(0)); hi = bound(e.slice.upper, n)
+            return VStr(z3.SubString(o.t, lo, z3.If(hi - lo < 0, z3.IntVal(0), hi - lo)))
         raise Unsupported(ast.unparse(e))
     def genexp(self, g, st, quant):
         gen = g.generators[0]; it = self.ev(gen.iter, st)
